@@ -107,7 +107,8 @@ func (k msgServer) ProcessUndPurchaseOrder(goCtx context.Context, msg *types.Msg
 
 	currentDecisions := purchaseOrder.Decisions
 	for _, d := range currentDecisions {
-		if msg.Signer == d.Signer {
+		// compare the address, not its spelling: bech32 also admits the all upper-case form of the same address
+		if signer.String() == d.Signer {
 			return nil, sdkerrors.Wrapf(types.ErrSignerAlreadyMadeDecision, "signer %s already decided: %s", msg.Signer, d.Decision.String())
 		}
 	}
